@@ -42,8 +42,8 @@ ASSUMPTIONS = [
 ]
 RULE = ("EXHAUSTIVE: every shape n_x, n_y <= 7, n_z <= 4 (quick) / n_x, n_y <= 12, n_z <= 5 (thorough) in both "
         "arrangements, all N^2 matrix entries, the exposure vector and the scaled H_int/H_ext (random k, the "
-        "configured A); a case is one (arrangement, shape); non-trivial when the batch has at least one pair of "
-        "neighbours; distinct by (arrangement, shape)")
+        "configured A); a case is one (arrangement, shape, k); non-trivial when the batch has at least one pair of "
+        "neighbours; distinct by the JSON form of the case (the corpus cases repeat box shapes with other k)")
 EXPLANATION = ("Lean theorems for all shapes about the closed-form interaction pattern + exhaustive entrywise "
                "comparison of the pattern with Snowflake._buildInteractionMatrices over a box of shapes")
 PARALLEL = True
@@ -252,6 +252,12 @@ def nontrivial(case, impl):
 
 def box(tier):
     return (7, 7, 4) if tier == "quick" else (12, 12, 5)
+
+
+def exhaustive(tier):
+    mx, my, mz = box(tier)
+    return (f"all {2 * mx * my * mz} (arrangement, shape) pairs with 1 <= n_x <= {mx}, 1 <= n_y <= {my}, "
+            f"1 <= n_z <= {mz}; the theorems cover all shapes, the tie of the model to the code is run on this box")
 
 
 def cases(rng, tier):
